@@ -88,6 +88,15 @@ func (m *minimiser) run() {
 	progress := true
 	for progress && !m.exhausted() {
 		progress = false
+		// independent worlds
+		for i := len(m.best.Subs) - 1; i >= 0 && len(m.best.Subs) > 1; i-- {
+			c := m.best.Clone()
+			c.Subs = append(c.Subs[:i], c.Subs[i+1:]...)
+			c.Sched.Choices = nil
+			if m.try(c) {
+				progress = true
+			}
+		}
 		// executors
 		for i := len(m.best.Execs) - 1; i >= 0 && len(m.best.Execs) > 1; i-- {
 			c := m.best.Clone()
